@@ -32,7 +32,7 @@ for pid in ids:
         na.append({"property_id": pid, "reason": "check not yet registered (work in progress)"})
 m = {
     "version": 1,
-    "setup_cmd": "cd /verif/engine && GOFLAGS=-mod=mod GOPROXY=off GOSUMDB=off GOTOOLCHAIN=local go build -o /verif/bin/symro .",
+    "setup_cmd": "cd /verif/engine && GOFLAGS=-mod=mod GOPROXY=off GOSUMDB=off GOTOOLCHAIN=local go build -o /verif/bin/symro . && cd /verif/tools/vrewrite && GOFLAGS=-mod=mod GOPROXY=off GOSUMDB=off GOTOOLCHAIN=local go build -o /verif/bin/vrewrite .",
     "hooks": {
         "guard": "verif",
         "enable": "no source hooks: harness files (build tag verif for the native twins) are injected by go/packages Overlay for the engine and by go test -overlay -tags verif for native replays; /repo itself is never modified by a check",
